@@ -201,6 +201,25 @@ def propagate_inlined_temporaries(modules):
                     lst = getattr(parent, field, None)
                     if not isinstance(lst, list):
                         continue
+                    # a result variable assigned in the branches of one statement and copied once, `x = t`, right behind it: the branches assign x
+                    j = 0
+                    while j + 1 < len(lst):
+                        nx = lst[j + 1]
+                        if isinstance(nx, ast.Assign) and len(nx.targets) == 1 and isinstance(nx.targets[0], ast.Name) and isinstance(nx.value, ast.Name) \
+                                and nx.value.id in uses and not isinstance(lst[j], ast.Assign):
+                            t = nx.value.id
+                            us = uses[t]
+                            loads = [u for u in us if isinstance(u.ctx, ast.Load)]
+                            inside = [u for u in us if any(u is y for y in ast.walk(lst[j]))]
+                            if len(loads) == 1 and loads[0] is nx.value and len(inside) == len(us) - 1 and inside and \
+                                    not any(isinstance(y, ast.Name) and y.id == nx.targets[0].id for y in ast.walk(lst[j])):
+                                for u in inside:
+                                    u.id = nx.targets[0].id
+                                lst.pop(j + 1)
+                                del uses[t]
+                                count += 1
+                                continue
+                        j += 1
                     changed = True
                     while changed:
                         changed = False
@@ -209,6 +228,30 @@ def propagate_inlined_temporaries(modules):
                                 continue
                             t = st.targets[0].id
                             us = uses[t]
+                            loads = [u for u in us if isinstance(u.ctx, ast.Load)]
+                            if len(us) > 2 and len(loads) == 1 and not any(isinstance(u.ctx, ast.Del) for u in us):
+                                # a result variable assigned in several branches and copied once, `x = t`, right behind the statement that
+                                # assigns it: the branches are analysed as assigning x
+                                done = False
+                                for j in range(len(lst) - 1):
+                                    nx = lst[j + 1]
+                                    if isinstance(nx, ast.Assign) and len(nx.targets) == 1 and isinstance(nx.targets[0], ast.Name) and nx.value is loads[0] \
+                                            and any(u is not loads[0] and any(u is y for y in ast.walk(lst[j])) for u in us) \
+                                            and not any(isinstance(y, ast.Name) and y.id == nx.targets[0].id for y in ast.walk(lst[j])):
+                                        stores_outside = [u for u in us if u is not loads[0] and not any(u is y for y in ast.walk(lst[j]))]
+                                        if stores_outside:
+                                            break
+                                        for u in us:
+                                            if u is not loads[0]:
+                                                u.id = nx.targets[0].id
+                                        lst.pop(j + 1)
+                                        del uses[t]
+                                        count += 1
+                                        changed = done = True
+                                        break
+                                if done:
+                                    break
+                                continue
                             if len(us) != 2 or sum(isinstance(u.ctx, ast.Store) for u in us) != 1:
                                 continue
                             for j in range(i + 1, len(lst)):
@@ -313,10 +356,11 @@ def absorb_private_helpers(modules, rounds=4):
             params += [x.arg for x in a.kwonlyargs]
             body = [st for st in f.body if not (isinstance(st, ast.Expr) and isinstance(st.value, ast.Constant))]
             ret = None
-            if body and isinstance(body[-1], ast.Return):
+            n_returns = sum(isinstance(x, ast.Return) for st in body for x in ast.walk(st))
+            if body and isinstance(body[-1], ast.Return) and n_returns == 1:
                 ret = body[-1].value
                 body = body[:-1]
-            elif any(isinstance(x, ast.Return) for st in body for x in ast.walk(st)):
+            elif n_returns:
                 # returns in tail position of a trailing if / try / with: each becomes an assignment to a result variable
                 tb = _tailify(copy.deepcopy(body), f'result__{name}')
                 if tb is None:
